@@ -27,6 +27,7 @@ const (
 	sDelegated    = "delegated"           // responder cert issued by the CA with the OCSPSigning EKU, embedded
 	sDelegatedNoE = "delegated-no-eku"    // responder cert issued by the CA without the EKU, embedded
 	sClientCert   = "client-cert"         // signed with the client's own certificate/key, embedded
+	sClientBare   = "client-cert-bare"    // signed with the client's own key, nothing embedded (the client certificate is part of the verified chain)
 	sStrangerEmb  = "stranger-embedded"   // self-signed stranger, certificate embedded
 	sStrangerBare = "stranger-bare"       // self-signed stranger, nothing embedded
 	sSibling      = "sibling"             // CA with the issuer's name but another key
@@ -125,6 +126,9 @@ func (r *Responder) Build(serial *big.Int, now time.Time) ([]byte, *OCSPAnswer) 
 		authentic = false
 	case sClientCert:
 		respCert, key, tmpl.Certificate = r.ClientCert, r.ClientKey, r.ClientCert
+		authentic = false
+	case sClientBare:
+		respCert, key = r.ClientCert, r.ClientKey
 		authentic = false
 	case sStrangerEmb:
 		respCert, key, tmpl.Certificate = r.w.X.Cert, r.w.X.Key, r.w.X.Cert
